@@ -51,7 +51,7 @@ PROPS = {
         "level": "proof",
         "quick": PERM_LIB + LEAF + names("aead", ["enc"], ["grid"]),
         "thorough": PERM_LIB + LEAF + names("aead", ["enc"], ["grid", "u", "ui"]),
-        "pre": [native.katcheck], "campaign": native.aead_campaign,
+        "pre": [native.katcheck, native.aead_compilers], "campaign": native.aead_campaign,
         "text": "L0: the C permutations equal the bit-serial NLFSR of the specification for the round counts the AEAD uses (5, 8/9/10), all states and keys; L1: encrypt == SpecEnc (frame bits 1/3/5/7, 640-step and long permutations, partial-block length injection, two-squeeze tag) for every permutation function.",
         "note": "spec <-> TinyJAMBU v2 paper correspondence is by reading plus native KAT replay of the reference model; message loop unbounded only in the thorough tier (quick: bounded grid). " + MODULAR + ". Compilers, optimisation levels, shared vs static objects not covered.",
         "technique": "CBMC equivalence miter (kissat) for the permutation + contract/loop-contract proofs against the spec monitor",
@@ -165,10 +165,10 @@ L2NOTE = ("L2 is strictly modular: the hash API is replaced by its contract (stu
           "lengths) and complete in values (all bytes symbolic, every H); the scalar state machines are unbounded via loop contracts. ")
 PROPS["C12"] = {
     "level": "proof",
-    "quick": [n for n in JOBS if n.startswith("hmac.rfc2104.grid.")] + ["hash.update.grid", "hash.init", "hash.finalize"],
-    "thorough": [n for n in JOBS if n.startswith("hmac.rfc2104.grid")] + ["hash.update.grid", "hash.init", "hash.finalize", "hash.update.u"],
+    "quick": ["hmac.setkey.u", "hmac.finalize.u"] + [n for n in JOBS if n.startswith("hmac.rfc2104.grid.")] + ["hash.update.grid", "hash.init", "hash.finalize"],
+    "thorough": ["hmac.setkey.u", "hmac.finalize.u"] + [n for n in JOBS if n.startswith("hmac.rfc2104.grid")] + ["hash.update.grid", "hash.init", "hash.finalize", "hash.update.u"],
     "campaign": native.lib_campaign("hmac"),
-    "text": "real tinyjambu-hmac.c (one-shot, and init/update/reinit/update/update/finalize) over the hash API's contract == RFC 2104 (block 64, keys > 64 hashed first, key = 64 used as is, empty key) over the same arbitrary hash function H, on a grid of key/message lengths with all bytes symbolic; hmac_update is a call-through to hash_update, so any chunking of the message is covered by C11's unbounded update contract.",
+    "text": "UNBOUNDED in the key length: hmac_init / hmac_finalize protocol contracts for every keylen (inner block K0 xor ipad, outer block K0 xor opad, inner digest fed to the outer hash, keys > 64 hashed whole once); hmac_update is a call-through to hash_update (any chunking: C11). Value level: real tinyjambu-hmac.c (one-shot, and init/update/reinit/update/update/finalize) over the hash API's contract == RFC 2104 (block 64, keys > 64 hashed first, key = 64 used as is, empty key) over the same arbitrary hash function H, on a grid of key/message lengths with all bytes symbolic; hmac_update is a call-through to hash_update, so any chunking of the message is covered by C11's unbounded update contract.",
     "note": L2NOTE + "Quick grid: key lengths {0,1,31,32,33,63,64,65,66,80,129} x message lengths {0,17} and {20,64,65} x {1,16,33,40}; thorough: every key length 0..130 and every message length 0..48. For keylen > 64 the code makes one hash_update(key, keylen) whatever the length, so longer keys differ only inside the hash.",
     "technique": "CBMC: real code over contract stubs of the callee API (abstract hash function) vs RFC reference; bounded lengths, symbolic values",
     "trusted": TRUSTED,
@@ -253,7 +253,7 @@ C06_JOBS = (UTIL + LEAF + names("aead", ["enc", "dec"], ["grid"]) + names("siv",
             + names("siv", ["dec"], ["short"]) + HASH_Q + ["hkdf.expand.sm", "hkdf.oneshot.cap", "pbkdf2.shape.blocks.c0", "pbkdf2.shape.blocks.c1",
                "pbkdf2.shape.chain", "prng.generate.budget", "prng.set_limit", "prng.feed.budget", "prng.reseed.budget", "prng.init.budget",
                "clean.exact", "clean.arena", "free.hmac", "free.hkdf", "free.prng", "trng.getrandom", "trng.getentropy", "trng.syscall",
-               "hmac.rfc2104.grid.0", "hmac.rfc2104.grid.5", "hkdf.step.grid.4", "hkdf.extract.grid.0", "pbkdf2.grid.1", "prng.ops.fn.0", "prng.generate.fn.4"])
+               "hmac.setkey.u", "hmac.finalize.u", "hmac.rfc2104.grid.0", "hmac.rfc2104.grid.5", "hkdf.step.grid.4", "hkdf.extract.grid.0", "pbkdf2.grid.1", "prng.ops.fn.0", "prng.generate.fn.4"])
 PROPS["C06"] = {
     "level": "proof",
     "quick": C06_JOBS,
